@@ -17,11 +17,24 @@ def run(ck):
     for kind in KINDS:
         for action in ("drop", "exit", "shutdown"):
             for pending in ((False, True) if action == "drop" else (False,)):
-                for gran, top, stepk in (("sync", 160, 3 if quick else 1), ("line", 900, 23 if quick else 4)):
+                for gran, top, stepk in (("sync", 160, 1), ("line", 900, 23 if quick else 4)):
                     for k in range(0, top, stepk):
                         p = {"kind": kind, "mode": "thread", "action": action, "pending": pending}
                         tasks.append({"scen": "reclaim", "params": p, "strat": ["placement", {"actor": k}, ["sticky"]],
                                       "gran": gran, "facts": {"kind": kind, "action": action}})
+    # directed: the action lands inside the very loop iteration that a completion has just triggered (the worker is
+    # between its flag checks, its work and its wait) - every source line of that iteration
+    wname = {"retry": "RetryExecutor-w", "poll": "PollExecutor-w", "throttle": "ThrottleExecutor-w",
+             "timeout": "TimeoutExecutor-w"}
+    for kind in KINDS:
+        for action in ("shutdown", "exit", "drop"):
+            for n in range(1, 140, 2 if quick else 1):
+                p = {"kind": kind, "mode": "thread", "action": action, "pending": False, "actor_at": 140,
+                     "wait": action == "shutdown"}
+                tasks.append({"scen": "reclaim", "params": p,
+                              "strat": ["phases", [["env2", 10000, 140], [wname[kind], n], ["actor", 10000],
+                                                   [wname[kind], 10000]]],
+                              "gran": "line", "facts": {"kind": kind, "action": action, "directed": True}})
     ck.run_and_validate(tasks, TRACE, nontrivial=lambda t, r: True)
     # references: histories of finished jobs, everything dropped by the user, weak references examined
     tasks = []
